@@ -28,6 +28,39 @@ def find_collision(rng, alen=4):
         seen[h] = (a, i)
 
 
+def ambiguous_pair(rng):
+    """two distinct (addr, id) that collide under a key built by CONCATENATING text or truncated forms of address and id
+    (10.0.0.1 + 2561 = 10.0.0.12 + 561; 2001:db8::1 + 2345 = 2001:db8::12 + 345), or that differ only where a shortened key
+    would not look (first octet, upper / lower half of an IPv6 address, high / low byte of the id)"""
+    fam = rng.randrange(6)
+    if fam in (0, 1):
+        while True:
+            d, x = rng.randrange(1, 26), rng.randrange(0, 10)
+            tail = str(rng.randrange(256, 6553))
+            i1, i2 = int(str(x) + tail), int(tail)
+            if d * 10 + x <= 255 and 256 <= i1 <= 65535 and 256 <= i2 <= 65535:
+                break
+        if fam == 0:
+            pre = bytes(rng.randrange(1, 255) for _ in range(3))
+            return (pre + bytes([d]), i1), (pre + bytes([d * 10 + x]), i2)
+        pre = bytes.fromhex("20010db8") + bytes(11)
+        h1, h2 = int(str(d), 16), int(str(d) + str(x), 16)       # text of the last group: "1" / "12"
+        return (pre + bytes([h1]), i1), (pre + bytes([h2]), i2) if h2 <= 255 else ((pre[:-1] + bytes([h2 >> 8, h2 & 255])), i2)
+    i = rng.randrange(256, 65536)
+    if fam == 2:      # same id, addresses differing in the first octet only
+        t = bytes(rng.randrange(256) for _ in range(3))
+        return (bytes([10]) + t, i), (bytes([11]) + t, i)
+    if fam == 3:      # IPv6 exporters differing in the upper half only / the lower half only
+        lo, hi = bytes(rng.randrange(256) for _ in range(8)), bytes.fromhex("20010db8000a0001")
+        if rng.random() < 0.5:
+            return (hi + lo, i), (bytes.fromhex("20010db8000b0001") + lo, i)
+        return (hi + lo, i), (hi + bytes(rng.randrange(256) for _ in range(8)), i)
+    a = bytes(rng.randrange(1, 255) for _ in range(4))
+    if fam == 4:      # same exporter, ids equal in the low byte / in the high byte
+        return (a, (i & 0xff) | 0x100), (a, (i & 0xff) | 0x200)
+    return (a, 0x1200 | (i & 0xff)), (a, 0x1200 | ((i + 1) & 0xff))
+
+
 class P(FlowFidelity):
     def __init__(self):
         FlowFidelity.__init__(self, "C04", "ipfix")
@@ -99,6 +132,9 @@ class P(FlowFidelity):
             line = self.gen_history(g, rng, [a1, a2], [i1, i2])
             self.collision_lines.add(line)
             return line
+        if k < 0.4:
+            (a1, i1), (a2, i2) = ambiguous_pair(rng)
+            return self.gen_history(g, rng, [a1, a2] if a1 != a2 else [a1], [i1, i2] if i1 != i2 else [i1])
         n = rng.choice([2, 2, 3, 4])
         exporters = [rand_addr(rng) for _ in range(n)]
         if rng.random() < 0.3:   # the 4-byte and the 16-byte form of related addresses, and near-identical IPv6 exporters
